@@ -53,9 +53,9 @@ def nontrivial(req, ans):
 
 
 SPEC = {
-    "tables": ["LatexGates"],
+    "tables": ["LatexGates", "LatexTemplates"],
     "props_module": PROPS_MODULE,
-    "required": ["undrawable_is_error"],
+    "required": ["grid_rectangular", "connectors_in_grid_on_partner_partial", "undrawable_is_error", "emitter_templates_as_modelled", "neg_ctrl_between_targets_panics", "neg_conditional_composite_overwrites", "neg_barrier_column_reused"],
     "drivers": ["drv_c13"],
     "harness_bin": "c13",
     "canon": canon,
